@@ -434,7 +434,100 @@ impl Subject for SGeo {
     }
 }
 
-const KINDS: [&str; 12] = [
+/// 64-bit integer axes whose knots are not representable as f64 (all odd, beyond 2^53)
+const IB: i64 = (1 << 53) + 1;
+fn iax() -> Vec<i64> {
+    [0i64, 2, 6, 8, 14].iter().map(|o| IB + o).collect()
+}
+fn iay() -> Vec<i64> {
+    [0i64, 4, 6, 12].iter().map(|o| IB + 100 + o).collect()
+}
+fn isc(r: Result<Result<i64, ndarray_interp::InterpolateError>, String>) -> Outcome {
+    match r {
+        Ok(Ok(v)) => Outcome::Ok(vec![], vec![v as u64]),
+        Ok(Err(_)) => Outcome::Err("OutOfBounds".into()),
+        Err(_) => Outcome::Panic,
+    }
+}
+fn iarr<D: ndarray::Dimension>(r: Result<Result<ndarray::Array<i64, D>, ndarray_interp::InterpolateError>, String>) -> Outcome {
+    match r {
+        Ok(Ok(a)) => Outcome::Ok(a.shape().to_vec(), a.iter().map(|v| *v as u64).collect()),
+        Ok(Err(_)) => Outcome::Err("OutOfBounds".into()),
+        Err(_) => Outcome::Panic,
+    }
+}
+struct SInt1 {
+    ip: Interp1D<OwnedRepr<i64>, OwnedRepr<i64>, Ix1, Linear>,
+}
+impl Subject for SInt1 {
+    fn op(&self, op: usize) -> Outcome {
+        let x = iax();
+        match op {
+            0 => isc(catch(|| self.ip.interp_scalar(x[2]))),
+            1 => isc(catch(|| self.ip.interp_scalar(x[2] - 1))),
+            2 => isc(catch(|| self.ip.interp_scalar(x[3] + 3))),
+            3 => isc(catch(|| self.ip.interp_scalar(x[4] + 1))),
+            4 => isc(catch(|| self.ip.interp_scalar(x[0] - 1))),
+            5 => iarr(catch(|| self.ip.interp_array(&Array1::from(vec![x[1] + 1, x[2], x[0] + 1])))),
+            6 => iarr(catch(|| self.ip.interp_array(&Array1::from(vec![x[2] + 1, x[4] + 2])))),
+            7 => {
+                let xs = Array1::from(vec![x[2], x[1]]);
+                let mut buf = Array1::<i64>::zeros(3);
+                match catch(|| self.ip.interp_array_into(&xs, buf.view_mut())) {
+                    Ok(Ok(())) => Outcome::Ok(vec![3], buf.iter().map(|v| *v as u64).collect()),
+                    Ok(Err(e)) => Outcome::Err(e.to_string()),
+                    Err(_) => Outcome::Panic,
+                }
+            }
+            8 => iarr(catch(|| self.ip.interp_array(&ndarray::arr2(&[[x[2], x[1] + 1], [x[1] + 1, x[3]]])))),
+            9 => iarr(catch(|| self.ip.interp(x[2]))),
+            10 => iarr(catch(|| self.ip.interp_array(&Array1::from(vec![x[4], x[0], x[4]])))),
+            13 => isc(catch(|| self.ip.interp_scalar(x[4]))),
+            14 => isc(catch(|| self.ip.interp_scalar(x[0]))),
+            _ => isc(catch(|| self.ip.interp_scalar(x[4] - 1))),
+        }
+    }
+    fn fingerprint(&self) -> u64 {
+        fnv(&format!("{:?}", self.ip))
+    }
+}
+struct SInt2 {
+    ip: Interp2D<OwnedRepr<i64>, OwnedRepr<i64>, OwnedRepr<i64>, Ix2, Bilinear>,
+}
+impl Subject for SInt2 {
+    fn op(&self, op: usize) -> Outcome {
+        let (x, y) = (iax(), iay());
+        match op {
+            0 => isc(catch(|| self.ip.interp_scalar(x[2], y[1]))),
+            1 => isc(catch(|| self.ip.interp_scalar(x[2] - 1, y[1] - 1))),
+            2 => isc(catch(|| self.ip.interp_scalar(x[3] + 3, y[2] + 2))),
+            3 => isc(catch(|| self.ip.interp_scalar(x[4] + 1, y[1]))),
+            4 => isc(catch(|| self.ip.interp_scalar(x[1], y[0] - 1))),
+            5 => iarr(catch(|| self.ip.interp_array(&Array1::from(vec![x[1] + 1, x[2], x[4]]), &Array1::from(vec![y[0] + 1, y[1], y[3]])))),
+            6 => iarr(catch(|| self.ip.interp_array(&Array1::from(vec![x[2] + 1, x[2]]), &Array1::from(vec![y[1], y[3] + 1])))),
+            7 => {
+                let (xs, ys) = (Array1::from(vec![x[2], x[1]]), Array1::from(vec![y[2], y[1]]));
+                let mut buf = Array1::<i64>::zeros(3);
+                match catch(|| self.ip.interp_array_into(&xs, &ys, buf.view_mut())) {
+                    Ok(Ok(())) => Outcome::Ok(vec![3], buf.iter().map(|v| *v as u64).collect()),
+                    Ok(Err(e)) => Outcome::Err(e.to_string()),
+                    Err(_) => Outcome::Panic,
+                }
+            }
+            8 => iarr(catch(|| self.ip.interp_array(&ndarray::arr2(&[[x[4], x[1] + 1], [x[0], x[3]]]), &ndarray::arr2(&[[y[3], y[1] + 1], [y[0], y[3]]])))),
+            9 => iarr(catch(|| self.ip.interp(x[4], y[3]))),
+            10 => isc(catch(|| self.ip.interp_scalar(x[0], y[3]))),
+            13 => isc(catch(|| self.ip.interp_scalar(x[4], y[3]))),
+            14 => isc(catch(|| self.ip.interp_scalar(x[0], y[0]))),
+            _ => isc(catch(|| self.ip.interp_scalar(x[4] - 1, y[3] - 1))),
+        }
+    }
+    fn fingerprint(&self) -> u64 {
+        fnv(&format!("{:?}", self.ip))
+    }
+}
+
+const KINDS: [&str; 14] = [
     "Linear",
     "Linear+extrapolate",
     "CubicSpline/NotAKnot",
@@ -447,6 +540,8 @@ const KINDS: [&str; 12] = [
     "Bilinear/scalar(2-d data)",
     "Linear/long axis (70 knots)",
     "Linear/geometric axis, 300-element batches",
+    "Linear<i64>/axis beyond 2^53",
+    "Bilinear<i64>/axes beyond 2^53",
 ];
 
 fn build(kind: usize) -> Box<dyn Subject> {
@@ -482,11 +577,21 @@ fn build(kind: usize) -> Box<dyn Subject> {
             let d = Array2::from_shape_fn((70, 2), |(i, j)| ((i * 2 + j) as f64 * 0.37).sin() + 0.01 * i as f64);
             Box::new(SLong { ip: build_linear::<f64, Ix2>(Some(&x), d, true).expect("valid build") })
         }
-        _ => {
+        11 => {
             let x = geo_axis();
             let d = Array2::from_shape_fn((x.len(), 2), |(i, j)| ((i * 2 + j) as f64 * 0.37).sin() * 3.0 + 0.3 * i as f64);
             Box::new(SGeo { ip: build_linear::<f64, Ix2>(Some(&x), d, false).expect("valid build") })
         }
+        12 => Box::new(SInt1 {
+            ip: ndarray_interp::interp1d::Interp1DBuilder::new(Array1::from(vec![12i64, -30, 48, 6, 60])).x(Array1::from(iax())).build().expect("valid build"),
+        }),
+        _ => Box::new(SInt2 {
+            ip: ndarray_interp::interp2d::Interp2DBuilder::new(Array2::from_shape_fn((5, 4), |(i, j)| [12i64, -30, 48, 6, 60, -18, 24][(i * 4 + j) % 7] * 4))
+                .x(Array1::from(iax()))
+                .y(Array1::from(iay()))
+                .build()
+                .expect("valid build"),
+        }),
     }
 }
 
